@@ -219,7 +219,7 @@ package ha
 // state (they configure the data plane / log / export metrics) and do not call
 // back into the controller.
 //@ type FailoverController
-//@   owns mu: state currentRole failoverTime failbackTime lastRoleChange failoverTimer failbackTimer onRoleChange handlers failoverRunning
+//@   owns mu: state currentRole failoverTime failbackTime lastRoleChange failoverTimer failbackTimer onRoleChange handlers failoverRunning failoverGen
 
 //@ functype FailoverEventHandler(event)
 //@   modifies nothing
@@ -241,7 +241,12 @@ package ha
 // handleHealthEvent: the transitions of the controller on partner health events;
 // the role never changes here.
 //@ func (c *FailoverController) handleHealthEvent
-//@   modifies c.state, c.failoverTime, c.failbackTime, c.failoverTimer, c.failbackTimer, c.failoversCanceled
+//@   modifies c.state, c.failoverTime, c.failbackTime, c.failoverTimer, c.failbackTimer, c.failoversCanceled, c.failoverGen
+// every arming of the failover timer and every cancellation starts a new generation, so a callback
+// of an earlier arming that is already running is stale ("down continuously for the delay")
+//@   ensures event.Type == HealthEventPartnerDown && locked(c.currentRole) == RoleStandby && locked(c.state) == FailoverStateNormal ==> c.failoverGen == (locked(c.failoverGen) + 1) % 18446744073709551616
+//@   ensures event.Type == HealthEventPartnerUp && locked(c.state) == FailoverStatePending ==> c.failoverGen == (locked(c.failoverGen) + 1) % 18446744073709551616
+//@   ensures !(event.Type == HealthEventPartnerDown && locked(c.currentRole) == RoleStandby && locked(c.state) == FailoverStateNormal) && !(event.Type == HealthEventPartnerUp && locked(c.state) == FailoverStatePending) ==> c.failoverGen == locked(c.failoverGen)
 //@   ensures c.currentRole == locked(c.currentRole)
 //@   ensures event.Type == HealthEventPartnerDown && locked(c.currentRole) == RoleStandby && locked(c.state) == FailoverStateNormal ==> c.state == FailoverStatePending && c.failoverTime >= old(now()) + c.config.FailoverDelay
 //@   ensures event.Type == HealthEventPartnerDown && !(locked(c.currentRole) == RoleStandby && locked(c.state) == FailoverStateNormal) ==> c.state == locked(c.state)
@@ -272,8 +277,9 @@ package ha
 //@   perexit
 //@   modifies c.state, c.currentRole, c.lastRoleChange, c.failoversInitiated, c.failoversCompleted, c.failoverRunning
 // in progress at an exit only when another invocation is carrying the failover out (it leaves
-// the state on each of its own exits): never in progress with no transition pending
-//@   ensures c.state != FailoverStateInProgress || (c.failoverRunning && lockedN(1, c.failoverRunning))
+// the state on each of its own exits), or when this is a stale timer callback, which leaves what it
+// found to the operator command that put it there: never in progress with no transition pending
+//@   ensures c.state != FailoverStateInProgress || (c.failoverRunning && lockedN(1, c.failoverRunning)) || (gen != 0 && gen != lockedN(1, c.failoverGen) && c.state == lockedN(1, c.state))
 //@   ensures c.failoversCompleted == old(c.failoversCompleted) || c.failoversCompleted == (old(c.failoversCompleted) + 1) % 18446744073709551616
 //@   ensures c.failoversCompleted != old(c.failoversCompleted) ==> c.currentRole == RoleActive && c.state == FailoverStateComplete
 //@   ensures c.failoversCompleted == old(c.failoversCompleted) ==> c.currentRole == lockedN(1, c.currentRole) || c.currentRole == lockedN(2, c.currentRole)
@@ -286,6 +292,9 @@ package ha
 // is carrying the failover out (lock released for the grace period and the callback) does nothing,
 // and the flag is held from the first section to the section that ends the attempt
 //@   ensures lockedN(1, c.failoverRunning) ==> c.failoversCompleted == old(c.failoversCompleted) && c.failoversInitiated == old(c.failoversInitiated)
+// a timer callback whose arming is no longer the current one (the timer was stopped or re-armed
+// after it fired) does nothing
+//@   ensures gen != 0 && gen != lockedN(1, c.failoverGen) ==> c.failoversCompleted == old(c.failoversCompleted) && c.failoversInitiated == old(c.failoversInitiated)
 //@   ensures unlockedN(1, c.failoverRunning) == lockedN(1, c.failoverRunning)
 //@   ensures unlockedN(2, c.failoverRunning) && !unlockedN(3, c.failoverRunning) && !unlockedN(4, c.failoverRunning)
 // per critical section (program order: acquisitions 1 = entry, 2 = callback-failure path, 3 =
